@@ -19,13 +19,22 @@ import (
 type NetEvent struct {
 	// HangUp: the sender disconnects as soon as the server starts to answer
 	// (the server-side request context is cancelled at that moment).
-	HangUp   bool   `json:"hang_up,omitempty"`
-	Seq      int    `json:"seq"`
-	From     string `json:"from"`
-	To       string `json:"to"`
-	Phase    string `json:"phase"` // "req" or "resp"
-	MsgType  uint8  `json:"msg"`   // request message type (from the path)
-	RespType int    `json:"resp_type,omitempty"`
+	HangUp bool `json:"hang_up,omitempty"`
+	// CancelBefore: the request context is already cancelled when the handler
+	// starts (the sender was gone before the server got to the request).
+	CancelBefore bool `json:"cancel_before,omitempty"`
+	// CancelAtStmt > 0 (sqlite nodes): the request context is cancelled when the
+	// backend logs its n-th SQL statement while this request is handled.
+	CancelAtStmt int `json:"cancel_at_stmt,omitempty"`
+	// CancelStmtMatch restricts the count to statements whose logged text
+	// contains this string (e.g. a table name).
+	CancelStmtMatch string `json:"cancel_stmt_match,omitempty"`
+	Seq             int    `json:"seq"`
+	From            string `json:"from"`
+	To              string `json:"to"`
+	Phase           string `json:"phase"` // "req" or "resp"
+	MsgType         uint8  `json:"msg"`   // request message type (from the path)
+	RespType        int    `json:"resp_type,omitempty"`
 	// OrigRespType is the response type as produced by the server, before any
 	// hook altered the event.
 	OrigRespType int    `json:"-"`
@@ -289,6 +298,35 @@ func (node *Node) Serve(n *Net, ev *NetEvent) (rr *httptest.ResponseRecorder) {
 			rr.WriteHeader(http.StatusServiceUnavailable)
 		}
 	}()
+	if ev.CancelBefore {
+		ctx, cancel := context.WithCancel(req.Context())
+		cancel()
+		node.Handler().ServeHTTP(rr, req.WithContext(ctx))
+		return rr
+	}
+	if ev.CancelAtStmt > 0 && node.Sql != nil {
+		ctx, cancel := context.WithCancel(req.Context())
+		defer cancel()
+		prev := node.Sql.DB.DebugLog
+		stmts := 0
+		node.Sql.DB.DebugLog = writerFunc(func(p []byte) (int, error) {
+			if ev.CancelStmtMatch == "" || bytes.Contains(p, []byte(ev.CancelStmtMatch)) {
+				if stmts++; stmts == ev.CancelAtStmt {
+					cancel()
+					n.mu.Lock()
+					n.Faults["ctx-cancelled-at-sql-statement"]++
+					n.mu.Unlock()
+				}
+			}
+			if prev != nil {
+				return prev.Write(p)
+			}
+			return len(p), nil
+		})
+		defer func() { node.Sql.DB.DebugLog = prev }()
+		node.Handler().ServeHTTP(rr, req.WithContext(ctx))
+		return rr
+	}
 	if ev.HangUp {
 		// the sender goes away as soon as the server starts to answer: the
 		// request context is cancelled at the first byte of the response
